@@ -107,6 +107,14 @@ def adversarial(rng, prog, opts=None):
     if rng.random() < opts.get("p_builtin_helper", 0.6):
         prog.inj_helpers = ["func wireBuiltinsHelper(xs []int) int {\n\tb := make([]int, len(xs), cap(xs)+1)\n\tn := copy(b, xs)\n"
                             "\tb = append(b, *new(int))\n\tvar s string = \"x\"\n\tvar e error = nil\n\t_ = e\n\treturn n + len(b) + len(s)\n}"]
+    # a copied helper whose type-switch variable is called like a package the generated file imports (used in several clauses)
+    if rng.random() < opts.get("p_switch_helper", 0.5):
+        nm = prog.pkgmap[rng.choice(["liba", "libb"])]["name"]
+        if nm not in G_KEYWORDS and nm not in G.PREDECLARED and nm != "init" and nm != "fmt":
+            prog.inj_helpers = list(getattr(prog, "inj_helpers", [])) + [
+                "func wireSwitchHelper(v interface{}) string {\n\tswitch %s := v.(type) {\n\tcase int:\n\t\treturn fmt.Sprint(%s + 1)\n"
+                "\tcase string:\n\t\treturn %s + \"!\"\n\tdefault:\n\t\treturn fmt.Sprint(%s)\n\t}\n}" % (nm, nm, nm, nm)]
+            prog.inj_helper_imports = ["fmt"]
     # extra declarations in the injector package (never a name the package's own files need)
     taken = set(used["app"]) | quals | {"Anchor"}
     pool = rng.sample(DECL_POOL, rng.randint(0, 4))
